@@ -35,7 +35,11 @@ RULE_ADDED = (
               'ing (judged in one direction: never success when the device never authorized). '
               ' '
               'Round 9: tool command lines spelled with long options and -v / --verbose now and'
-              ' then. ')
+              ' then. '
+              ' '
+              'Round 10: other spellings of a valid signature (0x, 0X, upper case, blanks): ref'
+              'used with the file untouched, or the written file loads and holds that signature'
+              '; hashes with zero bytes at an end. ')
 RULE = RULE + " " + RULE_ADDED.strip()
 ASSUMPTIONS = [
     "own Keccak-256 (pv/oracle/hashes.py) and OpenSSL verification are the oracles",
@@ -283,6 +287,35 @@ def run_case(acc, cseed, tmpdir):
         code, so = run_main(signapp.main, ["signapp.py", "manual", "-o", out, "-g", badsig])
         if code == 0 or open(out).read() != before:
             bad("malformed-signature-accepted", sig=badsig[:40], code=code)
+    # other spellings of a valid signature (prefix, case, blanks): refused and the file
+    # untouched - or, where the spelling is tolerated, the file that was written loads
+    # again and holds that very signature
+    other = g1.sign(g1.new_key(rng), b"y", rng).hex()
+    for lab, spelled in [("0x", "0x" + other), ("0X", "0X" + other), ("upper", other.upper()),
+                         ("blank-in-front", " " + other), ("newline-at-end", other + "\n"),
+                         ("spaced", " ".join(other[i:i + 2] for i in range(0, len(other), 2))),
+                         ("0x-upper", "0x" + other.upper())]:
+        acc.count("signature_spellings_checked")
+        acc.evaluations += 1
+        before = open(out).read()
+        code, so = run_main(signapp.main, ["signapp.py", "manual", "-o", out, "-g", spelled])
+        if code != 0:
+            if open(out).read() != before:
+                bad("refused-signature-changed-the-file:%s" % lab)
+            continue
+        try:
+            again = SignerAuthorization.from_jsonfile(out)
+            sigs_now = [bytes.fromhex(x) for x in again.to_dict()["signatures"]]
+        except Exception as e:
+            bad("accepted-signature-spelling-makes-the-file-unloadable:%s" % lab,
+                exc=repr(e)[:200])
+            with open(out, "w") as f:
+                f.write(before)
+            continue
+        if not sigs_now or sigs_now[-1] != bytes.fromhex(other):
+            bad("accepted-signature-spelling-stored-as-something-else:%s" % lab)
+        with open(out, "w") as f:
+            f.write(before)
     for bad_it in ["-1", "65536", "abc"]:
         acc.count("refusals_checked")
         acc.evaluations += 1
@@ -380,8 +413,11 @@ def device_dialogues(acc, rng, out, app_hash, it, bad, do_authorize_signer):
 
 def run_shard(spec, acc):
     env.setup()
+    if spec.get("shard", spec.get("seed", 0)) % 4 >= 2 and env.on_other_fs():
+        acc.count("shards_with_files_on_another_file_system_than_the_temp_directory")
     rng = random.Random(spec["seed"])
-    tmpdir = env.mkdtemp("c17", spec.get("shard", spec.get("seed", 0)) % 2 == 1)
+    tmpdir = env.mkdtemp("c17", spec.get("shard", spec.get("seed", 0)) % 2 == 1,
+                         other_fs=spec.get("shard", spec.get("seed", 0)) % 4 >= 2)
     try:
         for i in range(spec["n"]):
             run_case(acc, rng.getrandbits(48), tmpdir)
